@@ -25,3 +25,8 @@ pub(crate) use solver::SchedulingSolution;
 
 #[cfg(test)]
 pub(crate) use batches::PriorityCut;
+
+#[cfg(feature = "verif")]
+pub(crate) mod verif_reexport {
+    pub(crate) use super::taskqueue::OneOrMoreTaskIds;
+}
